@@ -609,6 +609,7 @@ func init() {
 		hname("vMustNotBlock"): func(e *Engine, fn *ssa.Function, a []Value) Value {
 			e.noBlockMsg = a[0].(StringV).s
 			e.sectionStart = e.steps
+			e.sectionForks = 0
 			return nil
 		},
 		hname("vMayBlock"): func(e *Engine, fn *ssa.Function, a []Value) Value {
